@@ -84,6 +84,11 @@ def cases(tier, seed):
             if M:
                 sd['M'] = M
             cs.append({'scen': 'riem_projection', 's': sd})
+    # the projected tensor is stored in the block form of tangent vectors, for frames unrelated to the base point
+    for N, Rx in [([2, 2], [1, 1, 1]), ([3, 2], [1, 1, 1]), ([2, 2, 2], [1, 1, 1, 1])]:
+        d = len(N)
+        for what in ('selfadjoint', 'residual_orthogonal', 'linear'):
+            cs.append({'scen': 'riem_projection', 's': {'N': N, 'Rx': Rx, 'Rz': [1] + [2] * (d - 1) + [1], 'Rw': [1] * (d + 1), 'what': what, 'z_form': 'delta'}})
     # base points whose cores are views: transposed operators (permuted strides) and strided slices; order 3 so that an interior core exists
     for N, M, via in [([2, 2, 1], [1, 2, 2], 'transposed'), ([2, 2], [2, 1], 'transposed'), ([2, 2, 2], None, 'sliced')] + ([([2, 2, 2], [2, 2, 1], 'transposed')] if th else []):
         d = len(N)
@@ -106,7 +111,7 @@ def sig(case, label):
     s = case['s']
     if case['scen'] == 'riem_gradient':
         return 'riem_gradient:%s:%s:%s' % ('ttm' if 'M' in s else 'tt', s['f'], label)
-    return 'riem_projection:%s:%s:%s' % ('ttm' if 'M' in s else 'tt', s['what'], label)
+    return 'riem_projection:%s:%s%s:%s' % ('ttm' if 'M' in s else 'tt', s['what'], ':z_' + s['z_form'] if s.get('z_form') else '', label)
 
 
 def meta(tier):
